@@ -6,21 +6,25 @@ import (
 	"runtime"
 	"time"
 
-	abci "github.com/cometbft/cometbft/abci/types"
 	dbm "github.com/cometbft/cometbft-db"
+	abci "github.com/cometbft/cometbft/abci/types"
 
 	"verifharness/simnet"
 )
 
-// blockRec is what the primary did in the block that is currently open (or was just
+// BlockRec is what the primary did in the block that is currently open (or was just
 // committed): enough to deliver the same block again, here or on a twin.
-type blockRec struct {
-	dt       int64
-	raw      [][]byte
-	res      []abci.ResponseDeliverTx
-	beginEv  []abci.Event
-	endRes   abci.ResponseEndBlock
-	hasEnd   bool
+type BlockRec struct {
+	DT      int64
+	Raw     [][]byte
+	Res     []abci.ResponseDeliverTx
+	BeginEv []abci.Event
+	EndRes  abci.ResponseEndBlock
+	HasEnd  bool
+	Hash    []byte
+	Height  int64
+	// Hook names a harness action performed right after BeginBlock (C19: "schedule").
+	Hook string
 }
 
 // Twin is an independently constructed application instance that executes every block the
@@ -84,7 +88,7 @@ func eventsEqual(a, b []abci.Event) string {
 
 // twinExecute makes the twin execute the block the primary has just committed and compares
 // everything the statement lists. mask drives the perturbations.
-func (w *World) twinExecute(rec *blockRec, mask uint64) error {
+func (w *World) twinExecute(rec *BlockRec, mask uint64) error {
 	t := w.Twin.C
 	prop := w.Opt.Prop
 	next := func() uint64 { // deterministic function of the generated mask
@@ -99,18 +103,18 @@ func (w *World) twinExecute(rec *blockRec, mask uint64) error {
 		time.Local = time.FixedZone("verif", int(next()%24-12)*3600)
 		defer func() { time.Local = oldLoc }()
 	}
-	bb, err := t.BeginBlock(time.Duration(rec.dt) * time.Second)
+	bb, err := t.BeginBlock(time.Duration(rec.DT) * time.Second)
 	if err != nil {
 		return vio(prop, "twin: %v", err)
 	}
-	if d := eventsEqual(rec.beginEv, bb.Events); d != "" {
+	if d := eventsEqual(rec.BeginEv, bb.Events); d != "" {
 		return vio(prop, "BeginBlock events differ between instances at height %d: %s", t.Hdr.Height, d)
 	}
 	var probes []Probe
 	if perturb {
 		probes = w.ProbeSet()
 	}
-	for i, raw := range rec.raw {
+	for i, raw := range rec.Raw {
 		if perturb {
 			r := next()
 			if r&1 != 0 {
@@ -132,13 +136,13 @@ func (w *World) twinExecute(rec *blockRec, mask uint64) error {
 				}
 				w.Label("twin perturbed: queries")
 			}
-			if r&16 != 0 && i+1 < len(rec.raw) {
+			if r&16 != 0 && i+1 < len(rec.Raw) {
 				// simulate a LATER tx of the block before this one is delivered
-				_, _, _ = t.App.Simulate(rec.raw[i+1])
+				_, _, _ = t.App.Simulate(rec.Raw[i+1])
 			}
 		}
 		res := t.DeliverTx(raw)
-		if d := resultsEqual(rec.res[i], res); d != "" {
+		if d := resultsEqual(rec.Res[i], res); d != "" {
 			return vio(prop, "tx %d of height %d has different results on two instances: %s", i, t.Hdr.Height, d)
 		}
 	}
@@ -146,10 +150,10 @@ func (w *World) twinExecute(rec *blockRec, mask uint64) error {
 	if err != nil {
 		return vio(prop, "twin: %v", err)
 	}
-	if d := eventsEqual(rec.endRes.Events, eb.Events); d != "" {
+	if d := eventsEqual(rec.EndRes.Events, eb.Events); d != "" {
 		return vio(prop, "EndBlock events differ between instances at height %d: %s", t.Hdr.Height, d)
 	}
-	if len(rec.endRes.ValidatorUpdates) != len(eb.ValidatorUpdates) {
+	if len(rec.EndRes.ValidatorUpdates) != len(eb.ValidatorUpdates) {
 		return vio(prop, "validator updates differ between instances")
 	}
 	if err := t.Commit(); err != nil {
